@@ -323,7 +323,15 @@ function allCases(thorough) {
     out.push({ group: 'script', name: `two-inline|${JSON.stringify(b)}`, make: () => ({ files: [['m', `<wxs module="m">${b}</wxs><wxs module="n">${b}</wxs>`], ['n', `<wxs module="m">${b}</wxs>`]], scripts: [['s', b], ['t', b]] }) })
   }
   // the extra runtime script of a group (documented: valid statements ended by a semicolon), with and without scripts in the group
-  for (const extra of ['foo();', 'var a=1;', 'function f(){};', '/* c */;', 'foo();bar();', 'if(x){y()};', '"use strict";', 'foo(); // trailing\n;', 'var e = 1; // note']) {
+  // every sequence of <= 2 (thorough: 3) pieces - statements, comments whose own text ends in a semicolon or not, separators - that V8
+  // accepts as a script on its own
+  const EXTRA_PIECES = ['foo();', 'var e = 1;', '// c', '// c;', '/* c */', '/* c; */;', '\n', ' ', ';', '"use strict";', 'if(x){y()};', 'function f(){};']
+  const extras = new Set(['foo(); // trailing\n;', 'var e = 1; // note'])
+  const recExtra = (cur, n) => { if (cur) extras.add(cur); if (n === 0) return; for (const p of EXTRA_PIECES) recExtra(cur + p, n - 1) }
+  recExtra('', thorough ? 3 : 2)
+  for (const extra of extras) {
+    if (!extra.trim()) continue
+    try { new vm.Script(extra) } catch (e) { continue }
     for (const withScripts of [0, 1, 2]) {
       out.push({ group: 'runtime-extra', name: `extra|${JSON.stringify(extra)}|${withScripts}`, make: () => ({ files: [['m', withScripts === 2 ? '<wxs module="m">exports.f=1</wxs><a b="{{m.f}}"/>' : '<a b="{{x}}"/>']], scripts: withScripts === 1 ? [['s', 'exports.f=1']] : [], extra }) })
     }
